@@ -389,28 +389,17 @@ OK_DATA = b"this member is fine"
 
 
 def name_class(name):
-    """Coarse class of a raw member name (what makes it unusual)."""
-    comps = name.split("/")
+    """Coarse class of a raw member name: climbs-above-root | non-normalised | plain."""
     depth = 0
-    climbs = False
-    for c in comps:
+    for c in name.split("/"):
         if c == "..":
             depth -= 1
             if depth < 0:
-                climbs = True
+                return "climbs-above-root"
         elif c not in ("", "."):
             depth += 1
-    core = name.strip("/").split("/")
-    if climbs:
-        return "climbs-above-root"
-    if core and core[-1] in ("..", ".") and name.strip("/") not in ("", ".", ".."):
-        return "ends-in-dot-component"
-    if ".." in comps:
-        return "inner-dotdot"
-    if name.startswith("/"):
-        return "absolute"
-    if "." in comps or "" in name.rstrip("/").split("/") or name == "":
-        return "dot-or-empty-component"
+    if norm_name(name) != name:
+        return "non-normalised"         # absolute, '.', '..', empty components, trailing slash
     return "plain"
 
 
@@ -440,10 +429,10 @@ def members_classes(members):
         for j, (b, kb) in enumerate(normed):
             if i == j:
                 continue
-            if a == b and i < j:
-                cls.add("same-name")
-            if ka == "f" and b.startswith(a + "/"):
-                cls.add("file-as-directory")
+            if (a == b and i < j) or (ka == "f" and b.startswith(a + "/")):
+                cls.add("conflicting-entries")  # same resulting name twice, or a file used as a directory
+    if "conflicting-entries" in cls:
+        cls.discard("non-normalised")
     return "+".join(sorted(cls)) or "plain"
 
 
@@ -484,6 +473,28 @@ def member_data(name):
 
 
 _AUDIT = {"on": False, "events": [], "installed": False}
+
+
+class Hang(BaseException):
+    """Raised by the per-query watchdog (not an Exception: nothing in /repo may swallow it)."""
+
+
+class watchdog(object):
+    def __init__(self, seconds):
+        self.seconds = seconds
+
+    def _fire(self, signum, frame):
+        raise Hang()
+
+    def __enter__(self):
+        import signal
+        self.old = signal.signal(signal.SIGALRM, self._fire)
+        signal.setitimer(signal.ITIMER_REAL, self.seconds)
+
+    def __exit__(self, *a):
+        import signal
+        signal.setitimer(signal.ITIMER_REAL, 0)
+        signal.signal(signal.SIGALRM, self.old)
 
 
 def _audit(event, args):
@@ -584,7 +595,11 @@ def query_crafted(ro, members, fail):
 
     def q(op, path, thunk, root_query=False):
         try:
-            return True, thunk()
+            with watchdog(0.5):
+                return True, thunk()
+        except Hang:
+            fail("hang", op=op, path=path)
+            return False, None
         except Exception as e:  # noqa
             nm = common.exc_name(e)
             if nm.startswith("crash:"):
@@ -651,16 +666,28 @@ def query_crafted(ro, members, fail):
         oko, data2 = q("openbin", p, rd)
         if oko and okb and data != data2:
             fail("readbytes-openbin-differ", path=p)
-        if ex is True and p in paths and isd is False and not okb:
-            fail("listed-file-unreadable", path=p)
 
 
-def crafted_signature(case, kinds):
-    return "crafted %s [%s]: %s" % (case["fmt"], members_classes([tuple(m) for m in case["members"]]),
-                                    " + ".join(sorted(kinds)))
+def normal_kinds(kinds):
+    """Collapse consequences into their cause: a root query that raises on first use explains the
+    'second listing answers' / 'harmless member lost' observations."""
+    kinds = set(kinds)
+    out = set()
+    first = sorted(k for k in kinds if k.startswith("root-query-raises:"))
+    if first:
+        kinds -= {"first-use-raises-then-answers", "good-member-lost"}
+        kinds -= set(first)
+        for k in first:
+            out.add("listing or walking / raises " + k.split(":", 1)[1])
+    return out | kinds
 
 
-def shrink_crafted(case, kinds, workdir):
+def crafted_signature(case, kind):
+    return "crafted %s: %s [%s]" % (case["fmt"], kind, members_classes([tuple(m) for m in case["members"]]))
+
+
+def shrink_crafted(case, kind, workdir):
+    """Smallest member list (dropping members one at a time) that still shows `kind`."""
     members = [list(m) for m in case["members"]]
     changed = True
     while changed:
@@ -668,7 +695,7 @@ def shrink_crafted(case, kinds, workdir):
         for i in range(len(members)):
             cand = members[:i] + members[i + 1:]
             k2, _d = run_crafted(dict(fmt=case["fmt"], members=cand), workdir)
-            if k2 == kinds:
+            if kind in normal_kinds(k2):
                 members = cand
                 changed = True
                 break
@@ -735,7 +762,7 @@ def explore(tier, seed):
              [dict(n=nm, t=1000000000 + 2 * i + 1, d=[dict(n=nm, t=1000000002, size=1, seed=i)])  # ... as a directory
               for i, nm in enumerate(NAMES)],
              chain_tree(rnd, 6)]
-    n_rand = 220 if thorough else 14
+    n_rand = 220 if thorough else 40
     for _ in range(n_rand):
         trees.append(gen_tree(rnd, [rnd.randint(1, 40 if thorough else 14)]))
     if thorough:
@@ -774,7 +801,7 @@ def explore(tier, seed):
     crafted.append(dict(fmt="tar", members=[["../link", "l"], ["a/../l2", "l"]]))
     pairs = [(a, b) for a in singles for b in singles]
     if not thorough:
-        pairs = rnd.sample(pairs, 260)
+        pairs = rnd.sample(pairs, 400)
         # the interesting structural pairs are always present
         pairs += [(("a", "f"), ("a/b", "f")), (("a/b", "f"), ("a", "f")), (("a", "f"), ("a", "d")),
                   (("a", "d"), ("a", "f")), (("a", "f"), ("a", "f")), (("a/b/c", "f"), ("a/b", "d")),
@@ -798,21 +825,31 @@ def flatten(nodes):
 
 
 def evaluate(plan, workdir, progress=False):
-    """Runs every case; returns list of (family 'roundtrip'|'crafted', case, signature, details)."""
+    """Runs every case; returns a list of (family, case, signature, details, small) -- one entry per
+    (case, failure kind); `small` is the minimal crafted case carrying the signature (None for round trips)."""
     failures = []
+    canon = {}
     t0 = time.time()
     for i, case in enumerate(plan["roundtrips"]):
         fails = run_roundtrip(case, workdir)
         if fails:
-            failures.append(("roundtrip", case, roundtrip_signature(case, fails), fails[:6]))
+            failures.append(("roundtrip", case, roundtrip_signature(case, fails), fails[:6], None))
         if progress and i % 500 == 0:
             print("  roundtrip %d/%d %.1fs" % (i, len(plan["roundtrips"]), time.time() - t0))
+            sys.stdout.flush()
     for i, case in enumerate(plan["crafted"]):
         kinds, details = run_crafted(case, workdir)
-        if kinds:
-            failures.append(("crafted", case, crafted_signature(case, kinds), (sorted(kinds), details)))
+        for kind in sorted(normal_kinds(kinds)):
+            key = (case["fmt"], kind, members_classes([tuple(m) for m in case["members"]]))
+            if key not in canon:
+                small = shrink_crafted(case, kind, workdir)
+                canon[key] = (crafted_signature(small, kind), small)
+            sig, small = canon[key]
+            failures.append(("crafted", case, sig, [d for d in details if d["kind"] in kind or kind in d["kind"]
+                                                    or d["kind"].split(":", 1)[-1] in kind][:4], small))
         if progress and i % 1000 == 0:
             print("  crafted %d/%d %.1fs" % (i, len(plan["crafted"]), time.time() - t0))
+            sys.stdout.flush()
     return failures
 
 
@@ -824,12 +861,6 @@ def local_known():
             data = data.get("known", [])
         return [k for k in data if k.get("property") == PID]
     return []
-
-
-def canonical_crafted_signature(case, kinds, workdir):
-    """Signature of the minimal member list reproducing the same failure kinds."""
-    small = shrink_crafted(case, kinds, workdir)
-    return crafted_signature(small, kinds), small
 
 
 def coverage_of(plan, failures, sigs):
@@ -903,13 +934,7 @@ def run(report):
         known_local = local_known()
         sig_count = {}
         reported = set()
-        canon_cache = {}
-        for famly, case, sig, details in failures:
-            if famly == "crafted":
-                key = (sig,)
-                if key not in canon_cache:
-                    canon_cache[key] = canonical_crafted_signature(case, set(details[0]), workdir)
-                sig, small = canon_cache[key]
+        for famly, case, sig, details, small in failures:
             sig_count[sig] = sig_count.get(sig, 0) + 1
             entry = report.known_match(sig)
             if entry is None:
@@ -924,8 +949,9 @@ def run(report):
             reported.add(sig)
             if famly == "crafted":
                 kinds, det = run_crafted(small, workdir)
-                report.violation(dict(kind="crafted-archive", signature=sig, case=small, failure_kinds=sorted(kinds),
-                                      details=det, theorem="Props/C15.v (tar_names_safe / tar_drops_climbers)"))
+                report.violation(dict(kind="crafted-archive", signature=sig, case=small,
+                                      failure_kinds=sorted(normal_kinds(kinds)), details=det,
+                                      theorem="Props/C15.v (tar_names_safe / tar_drops_climbers)"))
             else:
                 small = shrink_tree(case, sig, workdir)
                 fails = run_roundtrip(small, workdir)
@@ -952,12 +978,12 @@ def replay(report, path):
         if d.get("kind") == "crafted-archive":
             kinds, det = run_crafted(case, workdir)
             print("members:", case["members"], "format:", case["fmt"])
-            print("failure kinds:", sorted(kinds))
+            print("failure kinds:", sorted(normal_kinds(kinds)))
             for x in det:
                 print("  ", x)
             return 1 if kinds else 0
         fails = run_roundtrip(case, workdir)
-        print("configuration:", dict((k, case[k]) for k in ("fmt", "temp", "target", "route", "tz")))
+        print("configuration:", dict((k, case.get(k)) for k in ("fmt", "temp", "target", "route", "tz")))
         for f in fails[:10]:
             print("  ", f)
         return 1 if fails else 0
@@ -975,21 +1001,18 @@ if __name__ == "__main__":
     print("cases: %d round trips, %d crafted" % (len(plan["roundtrips"]), len(plan["crafted"])))
     fl = evaluate(plan, wd, progress=True)
     sigs = {}
-    cache = {}
-    for famly, case, sig, details in fl:
-        if famly == "crafted":
-            if sig not in cache:
-                cache[sig] = canonical_crafted_signature(case, set(details[0]), wd)
-            sig = cache[sig][0]
-            case = cache[sig][1] if sig in cache else case
-        sigs.setdefault(sig, []).append((case, details))
-    for s in sorted(sigs):
-        c, det = sigs[s][0]
-        print("%5d  %s" % (len(sigs[s]), s))
-        if "members" in c:
-            small = shrink_crafted(c, set(det[0]), wd)
-            print("         e.g.", small["fmt"], small["members"])
+    for famly, case, sig, details, small in fl:
+        sigs.setdefault(sig, []).append((case, details, small))
+    for sg in sorted(sigs):
+        c, det, small = sigs[sg][0]
+        print("%5d  %s" % (len(sigs[sg]), sg))
+        if small is not None:
+            print("         e.g.", small["fmt"], small["members"], det[:1])
         else:
-            print("         e.g.", dict((k, c[k]) for k in ("fmt", "temp", "target", "route", "tz")), det[:2])
+            c2 = shrink_tree(c, sg, wd)
+            print("         e.g.", dict((k, c2[k]) for k in ("fmt", "temp", "target", "route", "tz")), c2["tree"],
+                  run_roundtrip(c2, wd)[:2])
+    cov = coverage_of(plan, fl, dict((k, len(v)) for k, v in sigs.items()))
+    print("evaluations", cov["evaluations"], "distinct_nontrivial", cov["distinct_nontrivial"])
     print("wall %.1fs" % (time.time() - t0))
     shutil.rmtree(wd, ignore_errors=True)
